@@ -1,6 +1,7 @@
 import Lace.Props.C10
 import Lace.Props.C10Big
 import Lace.Props.C10Ref
+import Lace.Props.C10Fuel
 #print axioms Lace.C10.paused_machine_on_trajectory
 #print axioms Lace.C10.stepInto_iter
 #print axioms Lace.C10.continue_iter
@@ -34,3 +35,7 @@ import Lace.Props.C10Ref
 #print axioms Lace.C10.runUntil_paused
 #print axioms Lace.C10.runUntil_count_le
 #print axioms Lace.C10.resume_paused
+#print axioms Lace.C10.runUntil_fuel_mono
+#print axioms Lace.C10.resume_fuel_mono
+#print axioms Lace.C10.cmd_fuel_mono
+#print axioms Lace.C10.cmd_fuel_agree
